@@ -153,8 +153,9 @@ def run(F, rep):
     g5_rule(F, rep)
     # ------------------------------------------------------------ G6: no second, case-sensitive letter table
     g6_rule(F, rep)
-    # ------------------------------------------------------------ G7: a single multi-sample file is scanned like the first of several files
-    g7_rule(F, rep)
+    # (G7, "a single multi-sample file is scanned like the first of several files", was retired: it asked for byte-identical archives
+    # from one PanSN file and from per-sample files, which the statement does not - it asks for the same sample list and the
+    # same extracted contigs; see DESIGN 11.2)
     # ------------------------------------------------------------ G8: the sample a PanSN header names is its first two fields
     g8_rule(F, rep)
     # ------------------------------------------------------------ G9: a record's sample does not depend on the records before it
@@ -409,27 +410,3 @@ def g6_rule(F, rep):
     rep.floor("C19-G6", nctrl + nlive, 1, "dispatches on letter constants seen by the matcher (Base::from_char control)")
 
 
-def g7_rule(F, rep):
-    """One PanSN file and one file per sample must give the same archive, so the splitter scan has to look at the same
-    sequences in both layouts: the first *sample*.  In create_archive the single-input arm must call the first-sample variant
-    of the scan, and the all-contigs variant must be reachable only when there are several input files."""
-    ca = F.funcs.get("ragc::create_archive")
-    if not rep.floor("C19-G7", 1 if ca else 0, 1, "ragc::create_archive"):
-        return
-    ex = Exprs(ca)
-    first = [(bi, t) for bi, t in ca.calls() if not t.get("indirect") and t["callee"].endswith("determine_splitters_streaming_first_sample")]
-    allc = [(bi, t) for bi, t in ca.calls() if not t.get("indirect") and t["callee"].endswith("determine_splitters_streaming")]
-    def one_input(bi, want):
-        for c in dominating_conds(ca, bi, ex):
-            sc = fmt(c[0])
-            tv = cond_bool(c[1], c[2])
-            if re.fullmatch(r"Eq\((1, \w+::len\(inputs\)|\w+::len\(inputs\), 1)\)", sc) and tv is want:
-                return True
-        return False
-    ok1 = bool(first) and all(one_input(bi, True) for bi, _ in first)
-    ok2 = all(one_input(bi, False) for bi, _ in allc)
-    rep.ob("C19-G7", "create scans a single input file with the first-sample variant of the splitter scan (same sequences as the first of several files)", ok1,
-           detail="%d call(s) of the first-sample scan, guarded by inputs.len() == 1: %s" % (len(first), ok1), site=site_of(ca, first[0][1]) if first else "%s:%d" % (ca.file, ca.line_lo),
-           key="C19-G7 | create_archive | single file uses first-sample scan")
-    rep.ob("C19-G7", "the all-contigs scan of the first file is used only when there are several input files", ok2,
-           detail="%d call(s)" % len(allc), site=site_of(ca, allc[0][1]) if allc else "%s:%d" % (ca.file, ca.line_lo), key="C19-G7 | create_archive | all-contigs scan only for several files")
